@@ -104,8 +104,10 @@ def write_world(root, world):
             with open(os.path.join(d, v + ".version"), "w") as fd:
                 fd.write("FILE = version\nPRODUCT = %s\nVERSION = %s\n" % (nm, v))
                 for f in fl:
-                    fd.write("Group:\n   FLAVOR = %s\n   QUALIFIERS = \"\"\n   PROD_DIR = none\n   UPS_DIR = none\n"
-                             "   TABLE_FILE = none\nEnd:\n" % f)
+                    # a distinct (non-existent) directory per declaration: `setup` treats equal directories as
+                    # "already set up"
+                    fd.write("Group:\n   FLAVOR = %s\n   QUALIFIERS = \"\"\n   PROD_DIR = %s\n   UPS_DIR = none\n"
+                             "   TABLE_FILE = none\nEnd:\n" % (f, os.path.join(s, f, nm, v)))
         byt = {}
         for t, nm, f, v in st["tags"]:
             byt.setdefault((nm, t), []).append((f, v))
@@ -374,6 +376,17 @@ def a_oracle(c, out):
             yield ("posttag_after_version", "-T %s stands before a version entry in %s" % (t, vro))
     if len([e for e in vro if not e.startswith("warn")]) != len(set(e for e in vro if not e.startswith("warn"))):
         yield ("vro_no_duplicates", "repeated entry in %s" % vro)
+    # "may be repeated; precedence is left-to-right"
+    for tl, what in ((c["tags"], "-t"), ([t for t in c["postTags"] if t not in c["tags"]], "-T")):
+        seen = []
+        for t in tl:
+            if t in GLOBAL_TAGS and t not in seen:
+                seen.append(t)
+        pos = [vro.index(t) for t in seen if t in vro]
+        if pos != sorted(pos):
+            yield ("tags_left_to_right", "%s tags %s are not in that order on %s" % (what, seen, vro))
+    if c["keep"] and vro[:1] != ["keep"]:
+        yield ("keep_first", "--keep, but the VRO is %s" % vro)
 
 
 def eval_a(ctx, cases, pool):
@@ -808,9 +821,15 @@ def gen_d(rng):
         line["vro"] = rng.choice(["current", "version", "version!", "latest", "versionExpr"])
     elif r < 0.3:
         line["keep"] = True
+    # p may be set up already (by an earlier command): SETUP_P names one of its declarations
+    preset = None
+    decls = [(i, d) for i, st in enumerate(world["stacks"]) for d in st["decls"]]
+    if decls and rng.random() < 0.3:
+        i, d = rng.choice(decls)
+        preset = {"version": d[1], "flavor": d[2], "stack": i}
     return {"world": world, "version": version, "vexpr": vexpr, "optional": rng.random() < 0.4, "line": line,
             "keep": rng.random() < 0.25, "tags": rng.choice([[], [], ["beta"], ["stable"], ["stable", "beta"], ["t"]]),
-            "postTags": rng.choice([[], [], ["stable"], ["beta"]])}
+            "postTags": rng.choice([[], [], ["stable"], ["beta"]]), "preset": preset}
 
 
 def d_table_line(c):
@@ -831,6 +850,10 @@ def d_table_line(c):
 def d_child(stacks, c):
     _quiet()
     try:
+        ps = c.get("preset")
+        if ps:
+            os.environ["SETUP_P"] = "p %s -f %s -Z %s" % (ps["version"], ps["flavor"], stacks[ps["stack"]])
+            os.environ["P_DIR"] = "none"
         E = common.new_eups(readCache=False, keep=c["keep"])
         E.selectVRO(c["tags"] or None, None, None, None, postTag=c["postTags"] or None)
         vro = list(E.getVRO())
@@ -887,7 +910,8 @@ def version_for_setup(c):
 def d_oracle(c, out):
     """-t on the command line overrides the version a table names; -T does not; a named version that is not
     declared fails.  Only for lines without options of their own and without --keep (the property's setting)."""
-    if out.get("out") != "ok" or c["vexpr"] or c["keep"] or c["line"]["tags"] or c["line"]["vro"] or c["line"]["keep"]:
+    if (out.get("out") != "ok" or c["vexpr"] or c["keep"] or c["line"]["tags"] or c["line"]["vro"] or c["line"]["keep"]
+            or c.get("preset")):
         return
     cc = {"world": c["world"], "name": "p", "version": c["version"], "depth": 1, "tags": c["tags"],
           "postTags": c["postTags"], "already": None}
@@ -914,7 +938,8 @@ def eval_d(ctx, cases):
                      "accepted": [False] * len(c["world"]["stacks"]), "globalTags": GLOBAL_TAGS, "vro": ln["vro"],
                      "keep": c["keep"], "flavors": FLAVS,
                      "req": {"name": "p", "version": c["version"], "vexpr": c["vexpr"], "depth": 1, "flavor": NATIVE,
-                             "ignore": False, "already": None}})
+                             "ignore": False,
+                             "already": dict(c["preset"], reason=None) if c.get("preset") else None}})
     answers = ctx.lean.ask_many(reqs)
     for c, io_, s, ans in zip(cases, impl, sels, answers):
         inp = dict(c, stream="D")
@@ -928,9 +953,16 @@ def eval_d(ctx, cases):
             if hit:
                 hit = {k: hit[k] for k in ("version", "flavor", "stack")}
             top = True if (hit or c["optional"]) else "raised"
+            # what SETUP_P shows afterwards (Eups.setup l.1995-2009, not part of the resolution model): a product
+            # already set up in the version resolved is left alone; a failed optional dependency restores the environment
+            ps = c.get("preset")
+            if ps and (hit is None or hit["version"] == ps["version"]):
+                hit = dict(ps)
             mo = {"out": "ok", "vro": s["vro"], "top": top, "p": hit if top is True else None}
         ctx.case(key=inp, nontrivial=world_has(c["world"], "p", NATIVE) or world_has(c["world"], "p", "generic"),
                  sample={"input": {k: c[k] for k in c if k != "world"}, "impl": io_} if ctx.evaluations % 499 == 0 else None)
+        if c.get("preset"):
+            ctx.hist("D:p-already-set-up")
         ctx.hist("D:line=%s" % ("-t" if c["line"]["tags"] else "--vro" if c["line"]["vro"] else "-k" if c["line"]["keep"] else "plain"))
         ctx.hist("D:result=%s" % (io_.get("err") if io_["out"] != "ok" else "raised" if io_["top"] == "raised" else
                                   "p-absent" if io_["p"] is None else io_["p"]["flavor"]))
@@ -984,6 +1016,62 @@ def check_order(ctx):
     ctx.hist("O:order-pairs", len(names) ** 2)
 
 
+
+# ---- shrinking ----------------------------------------------------------------------------------------------
+
+def _reevaluate(ctx, inp):
+    sub = common.Ctx(ctx.pid, ctx.tier, ctx.seed, 600)
+    sub.lean = ctx.lean
+    run_inputs(sub, [inp])
+    return sub
+
+
+def _signature(sub):
+    return {("fail", f["clause"]) for f in sub.failures} | {("dis", d["observable"]) for d in sub.disagreements}
+
+
+def shrink_reports(ctx, limit=4, max_tests=120):
+    """Delta-debug the database of the first few unexplained failures / disagreements (streams B, C, D): drop
+    declarations and tag assignments while the same clause keeps failing.  Listed findings are left as they are."""
+    todo, seen = [], set()
+    for kind, rec in [("fail", f) for f in ctx.failures if not f.get("finding_class")] + [("dis", d) for d in ctx.disagreements]:
+        inp = rec["input"]
+        if not isinstance(inp, dict) or inp.get("stream") not in ("B", "C", "D") or "world" not in inp:
+            continue
+        sig = (kind, rec.get("clause") or rec.get("observable"))
+        if sig in seen or (inp.get("stream") == "B" and not inp.get("lookup")):
+            continue
+        seen.add(sig)
+        todo.append((sig, rec))
+        if len(todo) >= limit:
+            break
+    for sig, rec in todo:
+        inp = rec["input"]
+        items = [(i, "decls", d) for i, st in enumerate(inp["world"]["stacks"]) for d in st["decls"]] + \
+                [(i, "tags", t) for i, st in enumerate(inp["world"]["stacks"]) for t in st["tags"]]
+
+        def build(sub_items):
+            w = {"stacks": [{"decls": [], "tags": []} for _ in inp["world"]["stacks"]]}
+            for i, k, x in sub_items:
+                w["stacks"][i][k].append(x)
+            return dict(inp, world=w)
+
+        def still(sub_items):
+            try:
+                return sig in _signature(_reevaluate(ctx, build(sub_items)))
+            except common.InfraError:
+                return False
+        if not items or not still(items):
+            continue
+        small = common.ddmin(items, still, max_tests=max_tests)
+        sub = _reevaluate(ctx, build(small))
+        for r2 in (sub.failures if sig[0] == "fail" else sub.disagreements):
+            if (r2.get("clause") or r2.get("observable")) == sig[1]:
+                rec.update(input=r2["input"], impl_output=r2["impl_output"], model_output=r2["model_output"],
+                           note=(r2.get("note", "") + " [shrunk from %d to %d database records]" % (len(items), len(small))).strip())
+                break
+
+
 # ---- entry points --------------------------------------------------------------------------------------
 
 def corpus_cases():
@@ -1015,6 +1103,38 @@ def run_inputs(ctx, inputs):
         eval_d(ctx, ds)
 
 
+def exhaustive_b(ctx):
+    """Thorough tier: every database of two stacks over versions {1.0, 2.0} for Linux, 1.0 for generic, and the tag
+    `current` (absent / on 1.0 / on 2.0, for Linux) per stack — 24 x 24 databases — against a fixed set of VROs and
+    requests, through the files and the accepted cache."""
+    def stacks():
+        out = []
+        for mask in range(4):
+            for g in (False, True):
+                for cur in (None, "1.0", "2.0"):
+                    decls = [["p", v, NATIVE] for k, v in enumerate(["1.0", "2.0"]) if mask >> k & 1]
+                    if g:
+                        decls.append(["p", "1.0", "generic"])
+                    tags = [["current", "p", NATIVE, cur]] if cur else []
+                    if g and cur == "1.0":
+                        tags.append(["current", "p", "generic", "1.0"])
+                    out.append({"decls": sorted(decls), "tags": sorted(tags)})
+        return out
+    sts = stacks()
+    vros = [list(DEFAULT_DICT[0][1]), ["current", "version", "versionExpr"], ["versionExpr", "latest"],
+            ["version", "current", "versionExpr", "latest"], ["latest", "version"]]
+    reqs = [None, "1.0", "2.0", "9.9", ">= 1.0", "< 2.0", "== 2.0", ">= 2.0 || == 1.0"]
+    lookups = [{"name": "p", "version": v, "vexpr": None, "depth": d, "flavor": f, "ignore": False, "already": None, "vro": vro}
+               for vro in vros for v in reqs for f in FLAVS for d in (0, 1)]
+    items = [({"stacks": [a, b]}, {"files": lookups, "cache-rebuilt": [], "cache-accepted": lookups}) for a in sts for b in sts]
+    ctx.hist("B:exhaustive-databases", len(items))
+    for k in range(0, len(items), 48):
+        if ctx.out_of_time():
+            ctx.note("exhaustive enumeration cut short by the time budget at %d of %d databases" % (k, len(items)))
+            break
+        eval_b(ctx, items[k:k + 48])
+
+
 def run(ctx):
     check_order(ctx)
     corpus = corpus_cases()
@@ -1022,28 +1142,31 @@ def run(ctx):
     run_inputs(ctx, corpus)
     pool = [list(DEFAULT_DICT[0][1])]
     # stream A: the default dictionary exhaustively, the others sampled
-    a_cases = all_default_a() + [gen_a(ctx.rng) for _ in range(ctx.n(300, 6000))]
+    a_cases = all_default_a() + [gen_a(ctx.rng) for _ in range(ctx.n(500, 6000))]
     eval_a(ctx, a_cases, pool)
     pool = [v for v in pool if v][:60]
     ctx.hist("A:distinct-vros", len(pool))
-    nb = ctx.n(110, 4000)
+    if ctx.tier == "thorough":
+        exhaustive_b(ctx)
+    nb = ctx.n(200, 4000)
     done = 0
     while done < nb and not ctx.out_of_time():
         k = min(120, nb - done)
         eval_b(ctx, gen_b_items(ctx.rng, k, 12, pool))
         done += k
-    nc = ctx.n(500, 20000)
+    nc = ctx.n(800, 20000)
     done = 0
     while done < nc and not ctx.out_of_time():
         k = min(600, nc - done)
         eval_c(ctx, [gen_c(ctx.rng) for _ in range(k)])
         done += k
-    nd = ctx.n(400, 15000)
+    nd = ctx.n(600, 15000)
     done = 0
     while done < nd and not ctx.out_of_time():
         k = min(600, nd - done)
         eval_d(ctx, [gen_d(ctx.rng) for _ in range(k)])
         done += k
+    shrink_reports(ctx)
     if ctx.evaluations and ctx.distinct_nontrivial < ctx.evaluations * 0.3:
         raise common.InfraError("degenerate distribution: %d non-trivial of %d" % (ctx.distinct_nontrivial, ctx.evaluations))
     h = ctx.histogram
